@@ -88,6 +88,7 @@ class FrameNcp:
         self.last_seq = 0
         self.framing_errors = []
         self.state = {}
+        self.on_reset = None
 
     # -- status helpers ---------------------------------------------------------------------
     @property
@@ -106,6 +107,8 @@ class FrameNcp:
     def reset(self):
         self.version_set = False
         self.trace.append(("ncp_reset", self.loop.time()))
+        if getattr(self, "on_reset", None) is not None:
+            self.on_reset()
 
     # -- encoding ---------------------------------------------------------------------------
     def encode_body(self, name, values, which=2):
@@ -215,7 +218,13 @@ class FrameNcp:
             if kind == "default":
                 delay = a[1] if len(a) > 1 else 0.0
                 h = self.handlers.get(name)
-                values = h(self, args) if h is not None else self.zero_reply(name)
+                try:
+                    values = h(self, args) if h is not None else self.zero_reply(name)
+                except Exception as ex:  # noqa: BLE001
+                    if type(ex).__name__ == "InvalidCmd":
+                        self._send(X.invalid_command(self.version, seq, 0x36), delay)
+                        continue
+                    raise
                 if values is None:
                     continue  # handler chose silence
                 self._send(self.encode(name, values, seq), delay)
